@@ -129,6 +129,10 @@ pub fn request_classes() -> Vec<(String, String, Value)> {
     }
     out.push(("executeCommand/unknown".into(), "workspace/executeCommand".into(), json!({"command": "nope", "arguments": []})));
     out.push(("unknown-method".into(), "textDocument/hover".into(), json!({"textDocument": {"uri": uri("a")}, "position": {"line": 0, "character": 0}})));
+    // implementation-dependent (`$/…`) methods sent as *requests* must be answered like any unknown request
+    out.push(("unknown-method-dollar".into(), "$/doesNotExist".into(), json!({})));
+    out.push(("unknown-method-dollar-cancel".into(), "$/cancelRequest".into(), json!({"id": 1})));
+    out.push(("unknown-method-empty-name".into(), "".into(), json!(null)));
     out.push(("malformed-params".into(), "textDocument/formatting".into(), json!({"nonsense": true})));
     out
 }
@@ -233,7 +237,7 @@ pub fn run(ctx: &Ctx, model: &mut Model, rep: &mut Report) {
         idx.swap(i, r.below(i + 1));
     }
     // the known-finding classes are always exercised
-    let mut chosen: Vec<usize> = idx.iter().cloned().filter(|i| open.iter().any(|o| classes[*i].0.starts_with(o.as_str())) || classes[*i].0.starts_with("rename-free/non-ascii-dangling")).collect();
+    let mut chosen: Vec<usize> = idx.iter().cloned().filter(|i| open.iter().any(|o| classes[*i].0.starts_with(o.as_str())) || classes[*i].0.starts_with("rename-free/non-ascii-dangling") || classes[*i].0.starts_with("unknown-method") || classes[*i].0 == "malformed-params").collect();
     for i in idx {
         if chosen.len() >= take.max(chosen.len()) {
             break;
